@@ -6,7 +6,8 @@ From PV Require Import Gen.ElfLayouts Gen.Tables Gen.PyFuns.
 From PV Require Import Spec.PrimSpec Spec.ElfGabi Spec.C01Obs Spec.C01Image Model.C01ElfFile.
 From PV Require Import Proofs.ElfLayoutFacts.
 From PV Require Import Proofs.C01Lemmas Proofs.C01Records Proofs.C01Open Proofs.C01Sections Proofs.C01Iter
-  Proofs.C01Dispatch.
+  Proofs.C01Dispatch Proofs.C01Machines.
+From PV Require Import Spec.C01Machines.
 From Coq Require Import ZifyBool.
 Open Scope string_scope.
 Open Scope list_scope.
@@ -160,3 +161,8 @@ Proof.
     generalize (named (T_ehdr "e_version") (e_version (i_ehdr s)));
     intros v1 v2 v3 v4 v5; reflexivity.
 Qed.
+
+(* the dictionaries of an image are the ones its decoded e_machine selects *)
+Lemma image_dicts s :
+  T_sh_type s = sh_dict (machine_key (exp_machine s)) /\ T_p_type s = p_dict (machine_key (exp_machine s)).
+Proof. split; reflexivity. Qed.
